@@ -278,7 +278,7 @@ def _r1(ctx):
     _al = {}
     for it_ in mit:
         if isinstance(it_, tuple) and it_ and it_[0] == "set" and it_[1][0] == "name":
-            _al[it_[1][1]] = None if it_[1][1] in _al else it_[-1]
+            _al[it_[1][1]] = None if it_[1][1] in _al else it_[2]
     _al = {k: v for k, v in _al.items() if v is not None and J.path(J.unfilter(v)[0]) is not None}
     if _al:
         def _dealias(items_):
